@@ -418,6 +418,10 @@ func (c *Ctx) havocLoc(st *State, old *State, fr *Frame, env *Env, m ModLoc, tgt
 			ref = c.loadField(old, ref, fi)
 		}
 		fi := fis[len(fis)-1]
+		if isRepoStruct(fi.GoT) {
+			c.havocSubObject(st, c.loadField(old, ref, fi), fi.GoT, 0)
+			return
+		}
 		h := c.heapCur(st, fi.Key, arrSort(fi.Sort))
 		fv := c.fresh("mod_"+fi.Key, fi.Sort)
 		// a nil reference has no fields: nothing is modified then
@@ -575,7 +579,22 @@ func (c *Ctx) builtin(st *State, fr *Frame, bi *ssa.Builtin, cc *ssa.CallCommon,
 		r.GoT = cc.Args[0].Type()
 		return r
 	case "copy":
-		unsupp("builtin copy")
+		// copy(dst, src): dst keeps its length; its first min(len) elements become those of src
+		dst, src := args[0].(Term), args[1].(Term)
+		o, ok := st.origin[cc.Args[0]]
+		if !ok || !st.fresh[dst.S] {
+			unsupp("copy into a slice not allocated in this function (aliasing not modelled)")
+		}
+		n := ite(mk(SBool, "(<= %s %s)", lenOf(dst).S, lenOf(src).S), lenOf(dst), lenOf(src))
+		nv := c.fresh("copied", dst.Sort)
+		nv.GoT = dst.GoT
+		st.assume(eq(lenOf(nv), lenOf(dst)))
+		at := atOf(nv, Term{S: "t"}).S
+		st.assume(mk(SBool, "(forall ((t Int)) (! (=> (and (<= 0 t) (< t %s)) (= %s %s)) :pattern (%s)))", n.S, at, atOf(src, Term{S: "t"}).S, at))
+		st.assume(mk(SBool, "(forall ((t Int)) (! (=> (and (<= %s t) (< t %s)) (= %s %s)) :pattern (%s)))", n.S, lenOf(dst).S, at, atOf(dst, Term{S: "t"}).S, at))
+		st.fresh[nv.S] = true
+		c.store(st, fr, o, nv, pos)
+		return n
 	case "close":
 		c.closeChan(st, fr, args[0].(Term), pos)
 		return Unit{}
@@ -636,5 +655,21 @@ func (c *Ctx) havocObject(st *State, x Term) {
 		}
 		h := c.heapCur(st, fi.Key, arrSort(fi.Sort))
 		st.heap[fi.Key] = sto(h, ref, c.fresh("obj_"+fi.Key, fi.Sort))
+	}
+}
+
+func (c *Ctx) havocSubObject(st *State, ref Term, t types.Type, depth int) {
+	s, owner := structOf(t)
+	if s == nil || depth > 3 {
+		return
+	}
+	for i := 0; i < s.NumFields(); i++ {
+		fi := c.fieldByIndex(owner, i)
+		if isRepoStruct(fi.GoT) {
+			c.havocSubObject(st, c.loadField(st, ref, fi), fi.GoT, depth+1)
+			continue
+		}
+		h := c.heapCur(st, fi.Key, arrSort(fi.Sort))
+		st.heap[fi.Key] = sto(h, ref, c.fresh("mod_"+fi.Key, fi.Sort))
 	}
 }
